@@ -69,6 +69,63 @@ Definition malformed {A} (ts : list (option A * string)) : bool :=
 Definition field_mtags (nm : N) (ts : list stag) : list mtag :=
   flat_map (fun t => match fst t with Some (f, k) => if N.eqb f nm then [(Some (TKey k), snd t)] else [] | None => [] end) ts.
 
+(* ---------- the context calculus (shared by the walker, its specification and the cleanliness predicate) ---------- *)
+Section MapM.
+  Context {A B S : Type} (f : A -> S -> option (B * S)).
+  Fixpoint mapM (l : list A) (s : S) : option (list B * S) :=
+    match l with
+    | [] => Some ([], s)
+    | a :: r => match f a s with
+                | Some (b, s1) => match mapM r s1 with Some (r', s2) => Some (b :: r', s2) | None => None end
+                | None => None end
+    end.
+End MapM.
+
+(* what filterValue is asked to do with a string-like leaf met in a context: fail, or action + settability *)
+Inductive leaf_disp := LFail | LAct (a : act) (settable : bool).
+Definition leaf_act (ov : overrides) (cx : ctx) (lk : lkind) : leaf_disp :=
+  match cx with
+  | CTop a =>
+      match lk with
+      | LStr | LBytes => if a then LAct (action (resolve_string ov "secret")) true else LFail
+      | _ => LAct ARedact a          (* a wrapperspb message as payload: a struct whose untagged field Value is filtered *)
+      end
+  | CField a _ t _ => LAct (action (resolve_tag ov t)) a
+  | CMapVal => LAct ARedact true      (* processUnfiltered filters a settable copy and stores it back *)
+  | CElem _ => match lk with LStr | LBytes => LAct ASkip true (* nothing reasonable yet *) | _ => LAct ARedact true end
+  end.
+(* the tag filterSlice is called with for a []string / [][]byte; None: not filtered *)
+Definition leaves_tag (ov : overrides) (cx : ctx) : option (class * oper) :=
+  match cx with
+  | CTop _ => Some (resolve_string ov "secret")
+  | CField _ _ t _ => Some (resolve_tag ov t)
+  | CMapVal => Some (CUnknown, OOther)
+  | CElem _ => None
+  end.
+(* context of the target of a pointer; None: not dereferenced *)
+Definition ctx_ptr (cx : ctx) : option ctx :=
+  match cx with
+  | CTop true => None
+  | CTop false => Some (CTop true)
+  | CField _ ig t mt => Some (CField true ig t mt)
+  | _ => Some cx
+  end.
+(* are the elements of a slice of structs / maps walked, and is Taggable honoured for them *)
+Definition ctx_slice (cx : ctx) : option bool :=
+  match cx with CTop _ => Some true | CField _ ig _ _ => Some (negb ig) | CMapVal => Some false | CElem _ => None end.
+(* is the Taggable interface of a map / struct met here honoured *)
+Definition honoured (cx : ctx) : bool :=
+  match cx with CTop _ => true | CField a ig _ _ => a && negb ig | CElem t => t | CMapVal => false end.
+Definition struct_addr (cx : ctx) : bool := match cx with CTop a => a | CField a _ _ _ => a | _ => true end.
+Definition struct_tags (cx : ctx) (tg : option (list stag)) : list stag :=
+  match tg with Some ts => if honoured cx then ts else [] | None => [] end.
+(* withIgnoreTaggable for the fields of a struct: only right after its own filterTaggable, and not for slice elements *)
+Definition struct_ign (cx : ctx) (tg : option (list stag)) : bool :=
+  match tg, cx with Some _, CTop _ => true | Some _, CField _ _ _ _ => honoured cx | _, _ => false end.
+Definition map_tags (cx : ctx) (tg : option (list mtag)) : list mtag :=
+  (match tg with Some ts => if honoured cx then ts else [] | None => [] end)
+  ++ (match cx with CField _ _ _ m => m | _ => [] end).
+
 Section Walk.
   Variable c : cfg.
   Let ov := c_ov c.
@@ -138,82 +195,48 @@ Section Walk.
   Fixpoint walk (cx : ctx) (x : v) (s : st) {struct x} : option (v * st) :=
     match x with
     | VLeaf lk l =>
-        match cx with
-        | CTop a =>
-            match lk with
-            | LStr | LBytes =>
-                if a then match fval (action (resolve_string ov "secret")) true s l with
-                          | Some (l', s') => Some (VLeaf lk l', s') | None => None end
-                else None                                  (* string payload by value: not settable *)
-            | _ => Some (VLeaf lk (if a then Redacted else l), s)   (* a wrapperspb message as payload: struct with the untagged field Value *)
-            end
-        | CField a _ t _ =>
-            match fval (action (resolve_tag ov t)) a s l with Some (l', s') => Some (VLeaf lk l', s') | None => None end
-        | CMapVal => Some (VLeaf lk Redacted, s)
-        | CElem _ => match lk with LStr | LBytes => Some (x, s) | _ => Some (VLeaf lk Redacted, s) end
+        match leaf_act ov cx lk with
+        | LFail => None                                    (* string payload by value: not settable *)
+        | LAct a settable => match fval a settable s l with Some (l', s') => Some (VLeaf lk l', s') | None => None end
         end
     | VNilBytes => Some (x, s)
     | VLeaves lk ls =>
-        match cx with
-        | CTop _ => match fslice (resolve_string ov "secret") s ls with Some (ls', s') => Some (VLeaves lk ls', s') | None => None end
-        | CField _ _ t _ => match fslice (resolve_tag ov t) s ls with Some (ls', s') => Some (VLeaves lk ls', s') | None => None end
-        | CMapVal => match fslice (CUnknown, OOther) s ls with Some (ls', s') => Some (VLeaves lk ls', s') | None => None end
-        | CElem _ => Some (x, s)
+        match leaves_tag ov cx with
+        | Some ti => match fslice ti s ls with Some (ls', s') => Some (VLeaves lk ls', s') | None => None end
+        | None => Some (x, s)
         end
     | VOther _ => Some (x, s)
     | VPtr None => Some (x, s)
     | VPtr (Some y) =>
-        match cx with
-        | CTop true => Some (x, s)                          (* pointer to pointer: no case of the switch *)
-        | _ =>
-            let cx' := match cx with CTop _ => CTop true | CField _ ig t mt => CField true ig t mt | _ => cx end in
-            match walk cx' y s with Some (y', s') => Some (VPtr (Some y'), s') | None => None end
+        match ctx_ptr cx with
+        | Some cx' => match walk cx' y s with Some (y', s') => Some (VPtr (Some y'), s') | None => None end
+        | None => Some (x, s)                              (* pointer to pointer: no case of the switch *)
         end
     | VSlice l =>
-        match (match cx with
-               | CTop _ => Some true | CField _ ig _ _ => Some (negb ig) | CMapVal => Some false | CElem _ => None end) with
+        match ctx_slice cx with
+        | Some tg => match mapM (fun y s => walk (CElem tg) y s) l s with Some (l', s') => Some (VSlice l', s') | None => None end
         | None => Some (x, s)
-        | Some tg =>
-            match (fix go (l : list v) (s : st) : option (list v * st) :=
-                     match l with
-                     | [] => Some ([], s)
-                     | y :: r => match walk (CElem tg) y s with
-                                 | Some (y', s1) => match go r s1 with Some (r', s2) => Some (y' :: r', s2) | None => None end
-                                 | None => None end
-                     end) l s with
-            | Some (l', s') => Some (VSlice l', s') | None => None end
         end
     | VStruct tg fs =>
-        let addr := match cx with CTop a => a | CField a _ _ _ => a | _ => true end in
-        let honoured := match cx with CTop _ => true | CField a ig _ _ => a && negb ig | CElem t => t | CMapVal => false end in
-        let tags := match tg with Some ts => if honoured then ts else [] | None => [] end in
-        let ign := match tg, cx with Some _, CTop _ => true | Some _, CField _ _ _ _ => honoured | _, _ => false end in
+        let tags := struct_tags cx tg in
         if malformed tags then None else
-        match (fix go (fs : list field) (s : st) : option (list field * st) :=
-                 match fs with
-                 | [] => Some ([], s)
-                 | (nm, ex, t, y) :: r =>
-                     match (if ex then walk (CField addr ign t (field_mtags nm tags)) y s else Some (y, s)) with
-                     | Some (y', s1) => match go r s1 with Some (r', s2) => Some ((nm, ex, t, y') :: r', s2) | None => None end
-                     | None => None end
-                 end) fs s with
+        match mapM (fun (f : field) s =>
+                      match f with (nm, ex, t, y) =>
+                        if ex then match walk (CField (struct_addr cx) (struct_ign cx tg) t (field_mtags nm tags)) y s with
+                                   | Some (y', s1) => Some ((nm, ex, t, y'), s1) | None => None end
+                        else Some (f, s)
+                      end) fs s with
         | Some (fs', s') => Some (VStruct tg fs', s') | None => None end
     | VMap tg l =>
-        let honoured := match cx with CTop _ => true | CField a ig _ _ => a && negb ig | CElem t => t | CMapVal => false end in
-        let mt := ((match tg with Some ts => if honoured then ts else [] | None => [] end)
-                   ++ (match cx with CField _ _ _ m => m | _ => [] end))%list in
+        let mt := map_tags cx tg in
         if malformed mt then None else
-        match (fix go (l : list (N * v)) (s : st) : option (list (N * v) * st) :=
-                 match l with
-                 | [] => Some ([], s)
-                 | (k, y) :: r =>
-                     match (match key_tags k mt with
-                            | [] => match nested_fx (nested_tags k mt) y s with Some s0 => walk CMapVal y s0 | None => None end
-                            | ts => apply_tags ts y s
-                            end) with
-                     | Some (y', s1) => match go r s1 with Some (r', s2) => Some ((k, y') :: r', s2) | None => None end
-                     | None => None end
-                 end) l s with
+        match mapM (fun (ky : N * v) s =>
+                      match (match key_tags (fst ky) mt with
+                             | [] => match nested_fx (nested_tags (fst ky) mt) (snd ky) s with
+                                     | Some s0 => walk CMapVal (snd ky) s0 | None => None end
+                             | ts => apply_tags ts (snd ky) s
+                             end) with
+                      | Some (y', s1) => Some ((fst ky, y'), s1) | None => None end) l s with
         | Some (l', s') => Some (VMap tg l', s') | None => None end
     end.
 End Walk.
